@@ -9,7 +9,10 @@
        stored representation stays canonical, so that two executions can be compared with [=]:
          (a) [unregister_with]   : [unregister_package]'s two [retain]s over the HashMaps [defined], [imports];
          (b) [define_type_with]  : [define_type]'s scan of [defined] (fixed code: collected, sorted by node);
-         (c) [populate_node_indexes] : [encode_imports]' loop over the [explicit_imports] HashMap;
+         (c) [populate_node_indexes] : [encode_imports]' loop over the [explicit_imports] HashMap (small loop model;
+                                   the same loop inside the structural encoder model, with oracles for every hash
+                                   container the encoder consults, is in [model/EncodeOrder.v]:
+                                   [encode_order_oracle_indep], [history_then_encode_oracle_indep]);
          (d) [run_with]          : whole graph-API histories with an oracle for every such iteration;
          (e) [redirect_visit]    : [TypeAggregator::aggregate]'s [name_redirects.values_mut()] update;
          (f) [find_track], [remap] : [find_semver_compatible_interface]'s scan of [interfaces] and the part of
